@@ -17,6 +17,7 @@ BODY = {'body': 'func:PARSE'}
 
 
 def register(reg):
+    register2(reg)
     # -- cut: sets the flag on the TOP frame only (C05)
     contract(reg, f'{K}:ParserCore.statescope', ALL, {'self': 'Ctx', 'merge': 'bool'}, ret='None', requires=REQ, ghost=BODY,
              ensures=[('property', f'out_ok(body, {FRESH})'),
@@ -44,4 +45,68 @@ def register(reg):
     contract(reg, f'{X}:ParseContext.group', ALL, {'self': 'Ctx'}, ret='None', requires=REQ, ghost=BODY,
              ensures=[('property', f'out_ok(body, {OTOP})'), ('property', f'{S} == {OS}[:-1] + [out_frame(body, {OTOP})]')],
              raises={'FailedParse': [f'not out_ok(body, {OTOP})', f'{S} == {OS}[:-1] + [out_fail_frame(body, {OTOP})]']},
+             propagates=[GROW])
+
+
+def register2(reg):
+    TOP = f'{S}[-1]'
+    WS = f'uf_ws_end({OTOP}.cursor)'
+
+    def leaf(ok, frame_ok, result_ok, frame_fail):
+        return dict(
+            ensures=[('property', ok), ('property', f'{S} == {OS}[:-1] + [{frame_ok}]'), ('property', result_ok)],
+            raises={'FailedParse': [f'not ({ok})', f'{S} == {OS}[:-1] + [{frame_fail}]']})
+
+    contract(reg, f'{K}:ParserCore.cut#noprune', ALL, {'self': 'Ctx'}, ret='None',
+             requires=REQ + ['not self._active_config.prune_memos_on_cut'],
+             ensures=[('property', f'{S} == {OS}[:-1] + [spec_with_cut({OTOP})]')])
+    contract(reg, f'{K}:ParserCore.next_token', ALL + ['C09'], {'self': 'Ctx', 'ri': 'None'}, ret='None', requires=REQ,
+             defaults={'ri': None},
+             ensures=[('property', f'{S} == {OS}[:-1] + [spec_at({OTOP}, {WS})]'), f'{WS} >= {OTOP}.cursor.pos', f'{WS} <= {OTOP}.cursor.len'])
+    MATCH = f'spec_token_matches({OTOP}.cursor, {WS}, token)'
+    contract(reg, f'{X}:ParseContext.token', ALL + ['C09'], {'self': 'Ctx', 'token': 'str'}, ret='Val', requires=REQ,
+             **leaf(MATCH, f'spec_appended(spec_at({OTOP}, min({OTOP}.cursor.len, {WS} + len(token))), token)', 'result == token',
+                    f'spec_at({OTOP}, {WS})'))
+    RE = f'uf_re_end_s({OTOP}.cursor.textstr, {OTOP}.cursor.pos, pattern)'
+    contract(reg, f'{X}:ParseContext.pattern', ALL + ['C09'], {'self': 'Ctx', 'pattern': 'str'}, ret='Val', requires=REQ,
+             **leaf(f'{RE} >= 0',
+                    f'spec_appended(spec_at({OTOP}, min({OTOP}.cursor.len, {RE})), uf_re_token({OTOP}.cursor.textstr, {OTOP}.cursor.pos, pattern))',
+                    f'result == uf_re_token({OTOP}.cursor.textstr, {OTOP}.cursor.pos, pattern)', OTOP))
+    contract(reg, f'{X}:ParseContext.void', ALL + ['C09'], {'self': 'Ctx'}, ret='Val', requires=REQ,
+             ensures=[('property', f'{S} == {OS}[:-1] + [spec_at({OTOP}, {WS})]'), ('property', 'result == ()')])
+    contract(reg, f'{X}:ParseContext.fail', ALL, {'self': 'Ctx'}, ret='None', requires=REQ,
+             ensures=[('property', 'False')],
+             raises={'FailedParse': [f'{S} == {OS}[:-1] + [spec_at({OTOP}, {WS})]']})
+    contract(reg, f'{X}:ParseContext.eofcheck', ALL + ['C09'], {'self': 'Ctx'}, ret='None', requires=REQ,
+             ensures=[('property', f'{WS} >= {OTOP}.cursor.len'), ('property', f'{S} == {OS}[:-1] + [spec_at({OTOP}, {WS})]')],
+             raises={'FailedParse': [f'{WS} < {OTOP}.cursor.len', f'{S} == {OS}[:-1] + [spec_at({OTOP}, {WS})]']})
+    contract(reg, f'{X}:ParseContext.dot', ALL + ['C09'], {'self': 'Ctx'}, ret='Val', requires=REQ,
+             **leaf(f'{OTOP}.cursor.pos < {OTOP}.cursor.len',
+                    f'spec_appended(spec_at({OTOP}, {OTOP}.cursor.pos + 1), {OTOP}.cursor.textstr[{OTOP}.cursor.pos])',
+                    f'result == {OTOP}.cursor.textstr[{OTOP}.cursor.pos]', OTOP))
+    contract(reg, f'{X}:ParseContext.empty', ALL, {'self': 'Ctx'}, ret='Val', requires=REQ,
+             ensures=[('property', f'{S} == {OS}[:-1] + [spec_appended({OTOP}, closedlist([]))]'), ('property', 'result == closedlist([])')])
+
+    # -- calling a parse function
+    SAMEAS = dict(
+        ensures=[('property', f'{S} == {OS}[:-1] + [out_frame(exp, {OTOP})]'), ('property', f'out_ok(exp, {OTOP})'),
+                 ('property', f'result == out_ret(exp, {OTOP})'), f'spec_same_text({OTOP}, {TOP})',
+                 f'{TOP}.cutseen == ({OTOP}.cutseen or out_cut(exp, {OTOP}))'],
+        raises={'FailedParse': [f'{S} == {OS}[:-1] + [out_fail_frame(exp, {OTOP})]', f'not out_ok(exp, {OTOP})',
+                                f'spec_same_text({OTOP}, {TOP})',
+                                f'{TOP}.cutseen == ({OTOP}.cutseen or out_cut(exp, {OTOP}))']},
+        propagates=[GROW, f'implies(not exc_inside(exc), {SAME})'])
+    contract(reg, f'{X}:ParseContext.expcall', ALL, {'self': 'Ctx', 'exp': 'func:PARSE'}, ret='Val', requires=REQ, **SAMEAS)
+
+    # -- isolate: run exp in its own frame, keep position and names, return its (closed) cst;
+    #    C05: when exp fails after a cut the flag must stay visible to the enclosing option
+    F = f'out_frame(exp, {FRESH})'
+    FF = f'out_fail_frame(exp, {FRESH})'
+    contract(reg, f'{X}:ParseContext.isolate', ALL, {'self': 'Ctx', 'exp': 'func:PARSE'}, ret='Val', requires=REQ,
+             ensures=[('property', f'out_ok(exp, {FRESH})'),
+                      ('property', f'{S} == {OS}[:-1] + [spec_with_ast(spec_at({OTOP}, {F}.cursor.pos), {F}.ast)]'),
+                      ('property', f'result == spec_cstfinal({F}.cst)')],
+             raises={'FailedParse': [f'not out_ok(exp, {FRESH})', f'len({S}) == len({OS})', f'{S}[:-1] == {OS}[:-1]',
+                                     f'spec_same_text({OTOP}, {TOP})',
+                                     f'{TOP}.cutseen == ({OTOP}.cutseen or out_cut(exp, {FRESH}))']},
              propagates=[GROW])
